@@ -189,6 +189,75 @@ func config(tier string) *opspace.Config {
 func run(c *core.Ctx) {
 	config(c.Tier).Run(c)
 	faultyConfig(c.Tier).Run(c)
+	versionConfig(c.Tier).Run(c)
+}
+
+// versionConfig: (a) a resource that keeps kind and name but moves between two
+// served versions of its API group (HorizontalPodAutoscaler autoscaling/v1 <->
+// autoscaling/v2; the simulated server keeps one object for both), and (b) a
+// history of eleven revisions on a Kubernetes backend, whose record list comes
+// back in name order (v1, v10, v11, v2, ...), before the final operations.
+func versionConfig(tier string) *opspace.Config {
+	hpa := func(v, ver int, withA bool) *hx.ChartSpec {
+		cs := &hx.ChartSpec{Name: "c", Version: fmt.Sprint(ver)}
+		if v > 0 {
+			cs.Resources = append(cs.Resources, hx.ResSpec{Kind: "HPA", Name: "h", Variant: v})
+		}
+		if withA {
+			cs.Resources = append(cs.Resources, hx.ResSpec{Kind: "ConfigMap", Name: "a", Variant: 1})
+		}
+		return cs
+	}
+	cs := []*hx.ChartSpec{hpa(1, 201, false), hpa(2, 202, false), hpa(3, 203, true), hpa(0, 204, true), hpa(1, 205, true)}
+	cfg := &opspace.Config{
+		Property: prop,
+		Drivers:  []string{"memory", "secrets"},
+		Inits:    []string{"bystanders", "long11"},
+		MakeInit: func(drv, init string) *hx.World {
+			w := mkInit(drv, init)
+			if init == "long11" {
+				w.Exec(hx.Op{Kind: "install", Release: "r", Chart: cs[0]}, nil)
+				for i := 0; i < 9; i++ {
+					w.Exec(hx.Op{Kind: "upgrade", Release: "r", Chart: cs[(i+1)%2]}, nil)
+				}
+				w.Exec(hx.Op{Kind: "upgrade", Release: "r", Chart: cs[2]}, nil) // revision 11 = {h (v2, no minReplicas), a}; revision 9 = {h v1}
+			}
+			return w
+		},
+		MaxDepth: 3,
+		DepthFor: func(init string) int {
+			if init == "long11" {
+				return 2
+			}
+			return 0
+		},
+		Alphabet: func(_ *hx.World, hist []*rspb.Release, _ []opspace.Step) []opspace.Step {
+			var out []opspace.Step
+			if len(hist) == 0 {
+				for _, c := range cs {
+					out = append(out, opspace.Step{Op: hx.Op{Kind: "install", Chart: c}})
+				}
+				return out
+			}
+			if hist[len(hist)-1].Info.Status != rspb.StatusDeployed {
+				return nil
+			}
+			for _, c := range cs {
+				out = append(out, opspace.Step{Op: hx.Op{Kind: "upgrade", Chart: c}})
+			}
+			if len(hist) >= 2 {
+				out = append(out, opspace.Step{Op: hx.Op{Kind: "rollback"}})
+			}
+			out = append(out, opspace.Step{Op: hx.Op{Kind: "uninstall"}}, opspace.Step{Op: hx.Op{Kind: "uninstall", KeepHistory: true}})
+			return out
+		},
+		Check: check,
+	}
+	if tier == "thorough" {
+		cfg.Drivers = hx.Drivers
+		cfg.MaxDepth = 4
+	}
+	return cfg
 }
 
 // faultyConfig: histories that contain a failed operation (one cluster-side
@@ -253,6 +322,8 @@ func replay(c *core.Ctx, data json.RawMessage) []core.Violation {
 	}
 	if rd.Phase == "faulty" {
 		faultyConfig(rd.Tier).ReplayPath(c, rd.Replay)
+	} else if rd.Phase == "version" {
+		versionConfig(rd.Tier).ReplayPath(c, rd.Replay)
 	} else {
 		config(rd.Tier).ReplayPath(c, rd.Replay)
 	}
@@ -435,6 +506,7 @@ func check(c *core.Ctx, t *opspace.Transition) {
 			if e.Verb == "POST" {
 				full = e.Path + "/" + e.Label[strings.LastIndex(e.Label, "/")+1:]
 			}
+			full = sim.StorePath(full) // the object's store key (a group served under several versions keeps one object)
 			if !owned[full] {
 				violate("B1-bystander-request", full, "request", fmt.Sprintf("mutating request %s on an object outside the release's manifests", e.Label))
 			}
@@ -458,6 +530,14 @@ func shortPaths(w *hx.World) []string {
 // phaseOf tells which of the two searches a transition belongs to: only the
 // faulty-history search has a faulty step on its path.
 func phaseOf(t *opspace.Transition) string {
+	if t.Init == "long11" {
+		return "version"
+	}
+	for _, s := range t.Path {
+		if s.Op.Chart != nil && s.Op.Chart.Version >= "201" && len(s.Op.Chart.Version) == 3 {
+			return "version"
+		}
+	}
 	for _, s := range t.Path {
 		if s.Fault != nil {
 			return "faulty"
